@@ -2,8 +2,8 @@
 
 FS = ('FS layer: RollingWriter::{write,persist,forward,num_bytes_remaining_in_block,current_file} are VERIFIED against the BlockWrite contract over ghost state and the ASSUMED contracts of the '
       'BufWriter<File> stand-in vshim::BufFile (R17: with_capacity/write_all/flush/sync_data/seek; content/flushed/synced ghost lengths) plus one named assumption A-stream-bound (fewer than 2^62 bytes through one writer); '
-      'RollingReader::{next_block,block}, FileTracker::{take_first_unused,first,count}, Directory::{gc,has_files_that_can_be_deleted}, {Frame,Record}Writer::directory are VERIFIED against the ghost FS model of spec/vfs.rs; '
-      'still trusted (contracts assumed): RollingReader::{open,into_writer}, Directory::{open,open_file,sync_directory}, read_block, create_file, FileTracker::{next,inc,new,from_file_numbers}, RollingWriter::size, FileNumber::can_be_deleted')
+      'RollingReader::{open,next_block,block}, FileTracker::{take_first_unused,first,count}, Directory::{gc,has_files_that_can_be_deleted,first_file_number}, {Frame,Record}Writer::directory are VERIFIED against the ghost FS model of spec/vfs.rs (RollingReader::open over the read_exact stand-in R20, its body verified under the name open__verif_impl, DESIGN.md 13.10); '
+      'still trusted (contracts assumed): RollingReader::into_writer, Directory::{open,open_file,sync_directory}, read_block, create_file, FileTracker::{next,inc,new,from_file_numbers}, RollingWriter::size, FileNumber::can_be_deleted')
 
 LEMMAS = {
     'C01': ['vspec::lemma_parse_ser_item', 'vspec::lemma_parse_ser_items', 'vspec::lemma_parse_ser_entry', 'vspec::lemma_replay_items_is_append_all', 'vspec::lemma_ser_items_empty', 'vspec::lemma_replay_history',
@@ -154,10 +154,13 @@ PROPS = {
     'C17': dict(
         level='proof',
         explain='filename_to_position decided by CBMC over ALL 24-byte names (fixed width, loops bounded by the constant width, unwinding assertions on: complete, not bounded): '
-                'Some(n) iff "wal-" + 20 ASCII digits fitting u64, n = that value (K-fname); other lengths -> None (K-fname-len); filename() round trip (K-fname-rt, bounded in the digits).',
+                'Some(n) iff "wal-" + 20 ASCII digits fitting u64, n = that value (K-fname); other lengths -> None (K-fname-len); filename() round trip (K-fname-rt, bounded in the digits). '
+                'FS effects: Directory::gc (verified) removes only files popped from the tracker (O-C06-gc-prefix) and names them with filepath(dir, tracked number) (O-C17-remove-path); '
+                'structural obligations over the whole crate: remove_file/rename/... occur only in Directory::gc (O-C17-remove-site), files are opened/created only in create_file, Directory::open_file and sync_directory '
+                '(O-C17-open-sites), each through filepath(dir, tracked number) (O-C17-create-path, O-C17-open-path).',
         kani_quick=['K-fname', 'K-fname-len'], kani_thorough=['K-fname-rt'],
-        trusted=['Kani/CBMC', 'UTF-8 validity of the input str (byte 4 is a char boundary)'],
-        not_decided=['that Directory::open skips non-regular files', 'that only tracked names are created/removed (FS effects)'],
+        trusted=['Kani/CBMC', 'UTF-8 validity of the input str (byte 4 is a char boundary)', 'filepath = dir.join(filename()) (Path::join)', 'Directory::open (read_dir loop: trusted)'],
+        not_decided=['that Directory::open skips non-regular files and unparsable names (read_dir / DirEntry / OsString are outside Verus; the function is trusted and watched by the changed-trusted-function detector)'],
     ),
     'C18': dict(
         level='proof',
